@@ -163,12 +163,12 @@ theorem takeWhile_append_stop {p : Char → Bool} (g : List Char) (x : Char) (r 
 theorem drop_length_append (g r : List Char) : (g ++ r).drop g.length = r := by
   induction g with
   | nil => rfl
-  | cons c t ih => simpa using ih
+  | cons c t ih => simp [ih]
 
 theorem take_length_append (g r : List Char) : (g ++ r).take g.length = g := by
   induction g with
   | nil => simp
-  | cons c t ih => simpa using ih
+  | cons c t ih => simp [ih]
 
 /-- Digit strings (or empty ones) contain no comma, brace or newline. -/
 def BoundText (g : List Char) : Prop := ∀ c ∈ g, c.isDigit = true
@@ -234,8 +234,8 @@ theorem quantFromMatch_spelled {g1 g2 : List Char} {lo : Nat} {hi : Option Nat}
       | nil => exact absurd rfl hd.1
       | cons _ _ => rfl
     simp only [this, pyInt_digits hd]
-    have n1 : ¬ (Int.ofNat lo < 0) := by omega
-    have n2 : ¬ (Int.ofNat (decValue g2) < Int.ofNat lo) := by omega
+    have n1 : ¬ ((lo : Int) < 0) := by omega
+    have n2 : ¬ (decValue g2 < lo) := by omega
     simp [n1, n2]
 
 /-! ### one token -/
@@ -299,6 +299,7 @@ theorem lexAux_tok {t : Tok Char} {txt : List Char} (h : TokText t txt) (rest : 
     intro x cls t hg hm
     simp only [List.singleton_append, lexAux, hg, List.take_succ_cons, List.take_zero, hm,
       List.drop_succ_cons, List.drop_zero]
+    cases lexAux fuel rest <;> rfl
   cases h with
   | lparen =>
     refine special '(' "LeftParen" _ ?_ rfl
@@ -363,15 +364,20 @@ theorem lexAux_tok {t : Tok Char} {txt : List Char} (h : TokText t txt) (rest : 
         '{' :: (g1 ++ ',' :: (g2 ++ '}' :: rest)) := by simp
     have hlen : ('{' :: (g1 ++ ',' :: (g2 ++ ['}']))).length = g1.length + g2.length + 3 := by
       simp; omega
-    rw [etxt]
-    simp only [lexAux, getToken_quant b1 b2 rest]
-    rw [← etxt, ← hlen, take_length_append, drop_length_append]
     have hm : mkToken "QuantifierToken" ('{' :: (g1 ++ ',' :: (g2 ++ ['}']))) =
         .ok (.quant lo hi) := by
       have : mkToken "QuantifierToken" ('{' :: (g1 ++ ',' :: (g2 ++ ['}']))) =
           quantFromMatch ('{' :: (g1 ++ ',' :: (g2 ++ ['}']))) := rfl
       rw [this, quantFromMatch_spelled h1 h2]
-    rw [hm]
+    have htake : ('{' :: (g1 ++ ',' :: (g2 ++ '}' :: rest))).take (g1.length + g2.length + 3) =
+        '{' :: (g1 ++ ',' :: (g2 ++ ['}'])) := by
+      rw [← etxt, ← hlen]; exact take_length_append _ _
+    have hdrop : ('{' :: (g1 ++ ',' :: (g2 ++ '}' :: rest))).drop (g1.length + g2.length + 3) =
+        rest := by
+      rw [← etxt, ← hlen]; exact drop_length_append _ _
+    rw [etxt]
+    simp only [lexAux, getToken_quant b1 b2 rest, htake, hdrop, hm]
+    cases lexAux fuel rest <;> rfl
 
 theorem lexAux_blank {c : Char} (h : isBlank c = true) (rest : List Char) (fuel : Nat) :
     lexAux (fuel + 1) (c :: rest) = lexAux fuel rest := by
